@@ -61,6 +61,7 @@ type Eng struct {
 	retVars   []types.Object // result variables of the function under analysis
 	curRes    []types.Type   // result types of the body being executed
 	owned     map[types.Object]bool
+	curLoopEntry *State
 	hookDepth int
 	escaped   map[types.Object]bool
 	entry     *State
@@ -94,6 +95,9 @@ func sanitize(s string) string {
 func (e *Eng) declOnce(d string) {
 	if e.declSet == nil {
 		e.declSet = map[string]bool{}
+	}
+	if !e.bv && strings.Contains(preludeInt, d+"\n") {
+		return // already part of the prelude
 	}
 	if !e.declSet[d] {
 		e.declSet[d] = true
@@ -316,6 +320,9 @@ func (e *Eng) heapGet(st *State, key string) string {
 		return t
 	}
 	init := heapInit(key, st.epoch)
+	if st.suffix != "" {
+		init = primed(init)
+	}
 	e.declOnce(fmt.Sprintf("(declare-const %s %s)", init, e.heapSort(key)))
 	st.heap[key] = init
 	return init
@@ -329,6 +336,9 @@ func (e *Eng) heapSet(st *State, key, term string) {
 func (e *Eng) heapHavoc(st *State, key string) {
 	e.heapGet(st, key)
 	st.heap[key] = e.newSym("H_"+sanitize(key), e.heapSort(key))
+	if strings.Contains(key, "Ref") || strings.HasSuffix(key, "#ref") {
+		st.tainted = true
+	}
 }
 
 // havocAllHeaps forgets every heap location except the keys for which keep returns true.
@@ -375,11 +385,15 @@ func (e *Eng) loadLoc(st *State, base string, idxs []string, t types.Type) Val {
 		g := func(c string) string { return nestSelect(e.heapGet(st, base+c), idxs) }
 		v := Val{K: KSlice, Ref: g("#ref"), Off: g("#off"), Len: g("#len"), Cap: g("#cap"), GoT: t}
 		e.sliceFacts(st, v)
+		e.refOrigin(st, v.Ref)
 		return v
 	}
 	term := nestSelect(e.heapGet(st, base), idxs)
 	v := Val{K: k, T: term, GoT: t}
 	e.typeFacts(st, v)
+	if k == KRef {
+		e.refOrigin(st, v.T)
+	}
 	return v
 }
 
@@ -735,6 +749,9 @@ func litDecls(lits []string) string {
 
 // rowOf returns the backing array of a slice in the current heap.
 func (e *Eng) rowOf(st *State, v Val) string {
+	if v.Row != "" {
+		return v.Row
+	}
 	var et types.Type
 	if v.GoT != nil {
 		switch u := v.GoT.Underlying().(type) {
